@@ -377,10 +377,16 @@ func (b *builder) attrs(as []ad.Attr) {
 
 func (b *builder) unionAlts(alts []ad.Attr) {
 	for _, a := range alts {
+		a := a
+		var extra []any
+		if a.Val != nil {
+			// validations attached to a OneOf member (added for C10; members without `val` are declared as before)
+			extra = append(extra, func() { b.val(a.Val) })
+		}
 		if a.Tag > 0 {
-			Field(a.Tag, a.Name, b.tref(a.Type))
+			Field(a.Tag, a.Name, append([]any{b.tref(a.Type)}, extra...)...)
 		} else {
-			Attribute(a.Name, b.tref(a.Type))
+			Attribute(a.Name, append([]any{b.tref(a.Type)}, extra...)...)
 		}
 	}
 }
